@@ -182,6 +182,11 @@ func (m *Module) validateTable(enabledFeatures api.CoreFeatures, tables []Table,
 				if index >= globalsCount {
 					return fmt.Errorf("%s[%d].init[%d] global index %d out of range", SectionIDName(SectionIDElement), idx, ei, index)
 				}
+				// The value of the global becomes a reference held by the table: it must be one.
+				if gt, ok := m.globalTypeAt(index); ok && gt.ValType != elem.Type {
+					return fmt.Errorf("%s[%d].init[%d] global type mismatch: global %d has %s but element has %s",
+						SectionIDName(SectionIDElement), idx, ei, index, ValueTypeName(gt.ValType), RefTypeName(elem.Type))
+				}
 			} else {
 				if elem.Type == RefTypeExternref {
 					return fmt.Errorf("%s[%d].init[%d] must be ref.null but was %d", SectionIDName(SectionIDElement), idx, ei, init)
@@ -293,6 +298,27 @@ func checkSegmentBounds(min uint32, requireMin uint64, idx Index) error { // uin
 		return fmt.Errorf("%s[%d].init exceeds min table size", SectionIDName(SectionIDElement), idx)
 	}
 	return nil
+}
+
+// globalTypeAt returns the type of the global at the given index of the global index space, or false when the module
+// does not declare it.
+func (m *Module) globalTypeAt(index Index) (GlobalType, bool) {
+	if index >= m.ImportGlobalCount {
+		if local := index - m.ImportGlobalCount; int(local) < len(m.GlobalSection) {
+			return m.GlobalSection[local].Type, true
+		}
+		return GlobalType{}, false
+	}
+	ig := Index(0)
+	for i := range m.ImportSection {
+		if imp := &m.ImportSection[i]; imp.Type == ExternTypeGlobal {
+			if ig == index {
+				return imp.DescGlobal, true
+			}
+			ig++
+		}
+	}
+	return GlobalType{}, false
 }
 
 func (m *Module) verifyImportGlobalI32(sectionID SectionID, sectionIdx Index, idx uint32) error {
